@@ -59,6 +59,36 @@ class Client(threading.Thread):
                 v = p.echo(self.token)
                 self.out.update(status="ok", result=v if isinstance(v, str) else json.dumps(v))
                 return
+            if self.kind == "truncated":
+                # fewer body bytes than announced, then half-close: the server must answer (a parse error) and go on
+                if self.url.startswith("unix+http://"):
+                    sk = socket.socket(socket.AF_UNIX, socket.SOCK_STREAM)
+                    sk.settimeout(2.5)
+                    sk.connect(self.url[len("unix+http://"):])
+                else:
+                    hostport = self.url[len("http://"):].rstrip("/")
+                    sk = socket.create_connection((hostport.split(":")[0], int(hostport.split(":")[1])), timeout=2.5)
+                    sk.settimeout(2.5)
+                body = json.dumps({"jsonrpc": "2.0", "id": 1, "method": "echo", "params": [self.token]}).encode()
+                sk.sendall(b"POST / HTTP/1.0\r\nContent-Type: application/json\r\nContent-Length: " + str(len(body) + 25).encode() + b"\r\n\r\n" + body[:-5])
+                sk.shutdown(socket.SHUT_WR)
+                raw = b""
+                try:
+                    while True:
+                        ch = sk.recv(65536)
+                        if not ch:
+                            break
+                        raw += ch
+                except OSError:
+                    pass
+                sk.close()
+                if not raw.startswith(b"HTTP/"):
+                    self.out.update(status="error:no-reply-to-truncated-request")
+                    return
+                p = jsonrpc.ServerProxy(self.url, version=self.ver)
+                v = p.echo(self.token)
+                self.out.update(status="ok", result=v if isinstance(v, str) else json.dumps(v))
+                return
             p = jsonrpc.ServerProxy(self.url, version=self.ver)
             if self.kind == "call":
                 v = p.echo(self.token)
@@ -155,7 +185,7 @@ def run_word(word, cls, transport, poolcfg, rnd, rundir, counter):
             batch = []
             for _ in range(rnd.randint(1, 5)):
                 counter[0] += 1
-                c = Client(url, "tok-%d" % counter[0], rnd.choice(["call", "call", "slow", "notify", "batch", "invalid", "fail"]), rnd.choice([1.0, 2.0]))
+                c = Client(url, "tok-%d" % counter[0], rnd.choice(["call", "call", "slow", "notify", "batch", "invalid", "fail", "truncated"]), rnd.choice([1.0, 2.0]))
                 batch.append(c)
                 c.start()
             for c in batch:
@@ -229,6 +259,8 @@ def run_word(word, cls, transport, poolcfg, rnd, rundir, counter):
 
 
 if __name__ == "__main__":
+    import resource
+    resource.setrlimit(resource.RLIMIT_AS, (3 << 30, 3 << 30))
     words = json.load(open(sys.argv[2]))
     out, seed, rundir = sys.argv[3], int(sys.argv[4]), sys.argv[5]
     rnd = random.Random(seed)
@@ -238,5 +270,12 @@ if __name__ == "__main__":
         for cls, transport, poolcfg in w["cfgs"]:
             counter[0] += 1
             recs.append(run_word(w["w"], cls, transport, poolcfg, rnd, rundir, counter))
+            r = recs[-1]
+            if any(not c["returned"] for c in r["calls"]) or any(not x["done"] for x in r["replies"]):
+                # something is blocked (or spinning) for good inside this process: write what was recorded and leave at once
+                json.dump(recs, open(out, "w"))
+                print(len(recs))
+                sys.stdout.flush()
+                os._exit(0)
     json.dump(recs, open(out, "w"))
     print(len(recs))
